@@ -23,7 +23,7 @@ from symx.selftest import sparse_selftest
 from harness.common import bound, z, fval, isclose
 
 PROPERTY = "C04"
-FUNCTIONS = ["molgri.space.voronoi.HalfRotobjVoronoi._calculate_N_N_array", "HalfRotobjVoronoi._get_upper_indices",
+FUNCTIONS = ["molgri.space.voronoi.RotobjVoronoi._calculate_center_distances (4D)", "molgri.space.voronoi.HalfRotobjVoronoi._calculate_N_N_array", "HalfRotobjVoronoi._get_upper_indices",
              "molgri.space.voronoi.AbstractVoronoi._calculate_N_N_array", "AbstractVoronoi.get_all_voronoi_regions/get_dim",
              "molgri.space.utils.which_row_is_k", "utils.q_in_upper_sphere", "utils.distance_between_quaternions",
              "utils.angle_between_vectors", "utils.normalise_vectors", "utils.norm_per_axis"]
@@ -76,7 +76,8 @@ def shapes(tier, seed):
         for n in (2, 3, 4, 5):
             for rs in range(3 if tier == "quick" else 8):
                 out.append({"kind": "assembly", "dim": dim, "n": n, "rseed": seed * 100 + rs})
-    out.append({"kind": "distance"})
+    out.append({"kind": "distance", "via": "utils"})
+    out.append({"kind": "distance", "via": "voronoi"})
     out.sort(key=lambda s: (s.get("N", 0), s.get("n", 0)))
     return out
 
@@ -404,11 +405,19 @@ def run_distance(shape):
     proxy = NPProxy()
     acos = uf_acos()
 
+    import molgri.space.voronoi as Vm
+
+    def vor(c0, c1):
+        """the distance entry as the rotation-grid Voronoi object computes it for two cell centres"""
+        h = object.__new__(Vm.RotobjVoronoi)
+        h.centers = sarr([list(c0), list(c1)])
+        return h._calculate_center_distances(0, 1)
+
     def body():
-        with bound(U, np=proxy, print=noprint):
+        with bound(U, np=proxy, print=noprint), bound(Vm, np=proxy, print=noprint):
             a, b = sarr([SR(x) for x in q1]), sarr([SR(x) for x in q2])
-            return (U.distance_between_quaternions(a, b), U.distance_between_quaternions(b, a), U.distance_between_quaternions(a, -b),
-                    U.distance_between_quaternions(-a, b))
+            f = U.distance_between_quaternions if shape.get("via", "utils") == "utils" else vor
+            return (f(a, b), f(b, a), f(a, -b), f(-a, b))
 
     dot = z3.Sum([a * b for a, b in zip(q1, q2)])
     absdot = z3.If(dot >= 0, dot, -dot)
@@ -461,6 +470,19 @@ def replay_distance(cex):
     p = np.array([fval(model, f"p{k}", 0.5) for k in range(4)], dtype=float)
     q = np.array([fval(model, f"q{k}", [0.5, -0.5, 0.5, 0.5][k]) for k in range(4)], dtype=float)
     p, q = p / np.linalg.norm(p), q / np.linalg.norm(q)
+    if cex["shape"].get("via") == "voronoi":
+        import molgri.space.voronoi as Vm
+        rng = np.random.default_rng(4)
+        bad = []
+        pairs = [(p, q)] + [tuple(v / np.linalg.norm(v) for v in rng.normal(size=(2, 4))) for _ in range(100)]
+        for a, b in pairs:
+            h = object.__new__(Vm.RotobjVoronoi)
+            h.centers = np.array([a, b])
+            got = float(h._calculate_center_distances(0, 1))
+            exp = math.acos(min(1.0, abs(float(a @ b))))
+            if not isclose(got, exp, rtol=1e-7, atol=1e-9):
+                bad.append(f"centres {a.tolist()} {b.tolist()}: distance entry {got}, sign-minimised angle {exp}")
+        return {"reproduced": bool(bad), "detail": str(bad[:2])}
     d = float(U.distance_between_quaternions(p, q))
     exp = math.acos(min(1.0, abs(float(p @ q))))
     bad = []
@@ -479,7 +501,7 @@ def replay(cex):
 def finding_key(cex):
     s = cex["shape"]
     ob = cex["obligation"].split("[")[0]
-    return f"C04:{s['kind']}:{ob}"
+    return f"C04:{s['kind']}{s.get('via', '')}:{ob}"
 
 
 def selftest(seed):
